@@ -184,6 +184,9 @@ pub fn decode_cgr(fasta: &str, out: &str, size: u64, src: &str) {
 pub fn cgr_file(seed: u64, n: usize, maxlen: usize, dir: &str) {
     let mut rng = Rng::new(seed);
     for (j, &size) in SIZES.iter().enumerate() {
+        // one of the files is large: hundreds of records converted in parallel within a single batch
+        let n = if j == 2 { 400 } else { n };
+        let maxlen = if j == 2 { 12 } else { maxlen };
         let seqs: Vec<Vec<u8>> = (0..n)
             .map(|i| {
                 let len = if i % 5 == 0 { rng.below(3) as usize } else { rng.range(0, maxlen as u64) as usize };
@@ -195,8 +198,8 @@ pub fn cgr_file(seed: u64, n: usize, maxlen: usize, dir: &str) {
         let out = format!("{}/tr_cgr_{}.out", dir, j);
         write_fasta(&inp, &seqs);
         let mut c = CgrComputer::new(inp.clone(), out.clone(), size as usize);
-        c.set_threads(1 + rng.below(16) as usize);
-        c.verif_set_max_memory(*rng.pick(&[1usize, 64, 1 << 32]));
+        c.set_threads(if j == 2 { 8 } else { 1 + rng.below(16) as usize });
+        c.verif_set_max_memory(if j == 2 { 1 << 32 } else { *rng.pick(&[1usize, 64, 1 << 32]) });
         c.vectorise().unwrap();
         decode_cgr(&inp, &out, size, "lib-file");
         let _ = std::fs::remove_file(&inp);
@@ -258,6 +261,10 @@ pub fn ocgr(seed: u64, n: usize, maxlen: usize, dir: &str) {
     for k in 1..=7usize {
         for norm in [true, false] {
             let size = *rng.pick(&[1u64, (k * k) as u64, 16, 1 << 20]);
+            // k = 2 raw: a large single batch on many threads
+            let bigrun = k == 2 && !norm;
+            let n = if bigrun { 400 } else { n };
+            let maxlen = if bigrun { 20 } else { maxlen };
             let seqs: Vec<Vec<u8>> = (0..n)
                 .map(|i| {
                     let len = if i % 6 == 0 { rng.below(k as u64 + 2) as usize } else { rng.range(0, maxlen as u64) as usize };
@@ -268,9 +275,9 @@ pub fn ocgr(seed: u64, n: usize, maxlen: usize, dir: &str) {
             let out = format!("{}/tr_ocgr_{}.out", dir, k);
             write_fasta(&inp, &seqs);
             let mut c = OligoCgrComputer::new(inp.clone(), out.clone(), k, size as usize);
-            c.set_threads(1 + rng.below(16) as usize);
+            c.set_threads(if bigrun { 8 } else { 1 + rng.below(16) as usize });
             c.set_norm(norm);
-            c.verif_set_max_memory(*rng.pick(&[1usize, 200, 1 << 32]));
+            c.verif_set_max_memory(if bigrun { 1 << 32 } else { *rng.pick(&[1usize, 200, 1 << 32]) });
             c.vectorise().unwrap();
             decode_ocgr(&inp, &out, k, size, norm, "lib-file");
             let _ = std::fs::remove_file(&inp);
